@@ -342,11 +342,106 @@ fn c09_suite<S: ShortGroupSignatureScheme + 'static>(em: &mut Emitter, base: &mu
     }
 }
 
+/// partially equal layouts over 3..4 credentials (a,a,b / a,b,a / a,a,b,b / …): a deviating holder proves
+/// equality honestly inside every group of equal values (shared blinding per group) and answers the
+/// verifier's challenge for one equality statement over *all* credentials
+fn c09_layouts<S: ShortGroupSignatureScheme + 'static>(em: &mut Emitter, rng: &mut Rng, suite: &str) {
+    let layouts: Vec<Vec<u8>> = vec![
+        vec![0, 0, 0], vec![0, 0, 0, 0], vec![0, 0, 1], vec![0, 1, 0], vec![1, 0, 0], vec![0, 1, 1],
+        vec![0, 0, 1, 1], vec![0, 1, 0, 1], vec![0, 1, 1, 0], vec![0, 0, 0, 1], vec![0, 0, 1, 0], vec![0, 1, 0, 0], vec![1, 0, 0, 0], vec![0, 0, 1, 2], vec![0, 1, 2, 2], vec![0, 1, 1, 2],
+    ];
+    for (li, layout) in layouts.iter().enumerate() {
+        if !em.thorough() && li % 2 == 1 && layout.len() == 4 && li > 8 {
+            continue;
+        }
+        let n_creds = layout.len();
+        let pos = [1usize, 2, 3][li % 3];
+        let mut mix = Mix { n_creds, n_claims: 4, age: 30, equality: true, ..Default::default() };
+        mix.disclosed = (0..n_creds).map(|_| vec![]).collect();
+        let mut scn = Scn::<S>::build(rng, &mix);
+        for c in 0..n_creds {
+            let g = layout[c] as usize;
+            let mut claims = scn.bundles[c].credential.claims.clone();
+            claims[0] = RevocationClaim::from(format!("lay-{}-{}", li, c)).into();
+            claims[1] = HashedClaim::from(format!("Name {}", if pos == 1 { g } else { 0 })).into();
+            claims[2] = NumberClaim::from(41 + if pos == 2 { g as isize } else { 0 }).into();
+            claims[3] = ScalarClaim::from(Scalar::from(7u64 + if pos == 3 { g as u64 } else { 0 })).into();
+            let b = scn.issuers[c].sign_credential(&claims).unwrap();
+            scn.credentials.insert(scn.sig_ids[c].clone(), b.credential.clone().into());
+            scn.bundles[c] = b;
+        }
+        let sigs: Vec<Statements<S>> = (0..n_creds).map(|c| SignatureStatement { disclosed: Default::default(), id: scn.sig_ids[c].clone(), issuer: scn.bundles[c].issuer.clone() }.into()).collect();
+        // verifier: one equality statement over everything
+        let mut all = IndexMap::new();
+        for c in 0..n_creds {
+            all.insert(scn.sig_ids[c].clone(), pos);
+        }
+        let mut vst = sigs.clone();
+        vst.push(EqualityStatement { id: "eq0".into(), ref_id_claim_index: all }.into());
+        let verifier_schema = PresentationSchema::new_with_id(&vst, "c09-layout");
+        // prover: one equality statement per group of two or more
+        let mut pst = sigs.clone();
+        let mut gi = 0;
+        for g in 0..3u8 {
+            let members: Vec<usize> = (0..n_creds).filter(|c| layout[*c] == g).collect();
+            if members.len() >= 2 {
+                let mut m = IndexMap::new();
+                for c in &members {
+                    m.insert(scn.sig_ids[*c].clone(), pos);
+                }
+                pst.push(EqualityStatement { id: if gi == 0 { "eq0".to_string() } else { format!("eq0-{}", gi) }, ref_id_claim_index: m }.into());
+                gi += 1;
+            }
+        }
+        let prover_schema = PresentationSchema::new_with_id(&pst, "c09-layout");
+        scn.schema = verifier_schema.clone();
+        em.oracle_case(&format!("{} layout {:?} pos {}", suite, layout, pos));
+        em.count(&format!("{}:layout-{}", suite, n_creds));
+        if let Out::Ok(p) = steered_create(&scn.credentials, &prover_schema, &verifier_schema, &scn.nonce, None) {
+            let mut v = serde_json::to_value(&p).unwrap();
+            if let Some(m) = v["proofs"].as_object_mut() {
+                let extra: Vec<String> = m.keys().filter(|k| k.starts_with("eq0-")).cloned().collect();
+                for k in extra {
+                    m.remove(&k);
+                }
+            }
+            if v["proofs"]["eq0"].is_null() {
+                v["proofs"]["eq0"] = json!({"Equality": {"id": "eq0"}});
+            }
+            if let Out::Ok(q) = pres_from_value::<S>(&v) {
+                if layout.iter().all(|g| *g == 0) {
+                    if !scn.verify(&q).is_ok() {
+                        em.violation("c09:equal-values-rejected", format!("{}: identical values over {} credentials rejected", suite, n_creds), scn.replay(json!({"suite": suite, "layout": layout})));
+                    }
+                } else {
+                    judge(em, "c09", suite, "partially-equal-layout", &scn, &q, &format!("layout {:?} pos {}", layout, pos));
+                }
+                // model: the verifier's test on the collected responses (everything else in q is valid)
+                let slot = if suite == "bbs" { pos } else { pos + 2 };
+                let rs: Vec<String> = (0..n_creds).map(|c| v["proofs"][&scn.sig_ids[c]]["Signature"]["pok"]["proof"][slot].as_str().unwrap_or("").to_string()).collect();
+                em.op(format!("eq.check {}", rs.join(",")), format!("{}", scn.verify(&q).is_ok()));
+            }
+            // the same holder with values that are all equal: one group, accepted
+            
+        } else {
+            em.count("layout-steered-create-failed");
+        }
+    }
+}
+
 pub fn gen_c09(em: &mut Emitter, rng: &mut Rng) {
     em.rule = "2..3 credentials from different issuers, equality over a hashed / number / scalar claim position, equal and unequal values (incl. scalars \
                differing only above bit 64), with and without a commitment on the same claim: honest runs (accepted iff equal); deviating holder with \
                unequal values proves everything else with independent nonces under the verifier's challenge (steered prover) and attaches the equality \
-               proof, copies responses between proofs, re-fixes the challenge; equality proof removed / stored under another id".into();
+               proof, copies responses between proofs, re-fixes the challenge; equality proof removed / stored under another id; partially equal layouts over 3..4 credentials (a,a,b … a,b,b,a, a,a,b,c) with per-group shared blinding".into();
     c09_suite::<Bbs>(em, rng, "bbs");
     c09_suite::<Ps>(em, rng, "ps");
+    // unit indices after those used by the suites
+    let base = 2 * em.n(10, 120);
+    if em.mine(base) {
+        c09_layouts::<Bbs>(em, &mut rng.sub(9001), "bbs");
+    }
+    if em.mine(base + 1) {
+        c09_layouts::<Ps>(em, &mut rng.sub(9002), "ps");
+    }
 }
